@@ -657,3 +657,152 @@ if __name__ == "__main__":
     print(len(res["functions"]), "functions reachable")
     for f in res["findings"]:
         print(json.dumps(f)[:400])
+
+
+# ---------------------------------------------------------------------------------------------- host switches (C07)
+HOST_NAMES = ("PYTHON_VERSION_TRIPLE", "PYTHON3", "IS_PYPY", "PYTHON_MAGIC_INT", "VARIANT")
+HOSTS = {"3.8": ((3, 8, 18), 3413), "3.9": ((3, 9, 18), 3425), "3.10": ((3, 10, 13), 3439), "3.11": ((3, 11, 7), 3495), "3.12": ((3, 12, 1), 3531), "3.13": ((3, 13, 0), 3571)}
+
+
+def host_env(h):
+    vt, magic = HOSTS[h]
+    return {"PYTHON_VERSION_TRIPLE": vt, "PYTHON3": True, "IS_PYPY": False, "PYTHON_MAGIC_INT": magic, "VARIANT": None,
+            "sys.version_info": vt + ("final", 0)}
+
+
+class _Unknown(object):
+    pass
+
+
+def _const(node):
+    try:
+        return True, ast.literal_eval(node)
+    except Exception:
+        return False, None
+
+
+def peval(node, env):
+    """partial evaluation of an expression with the host constants substituted: ('const', value) or ('expr', text)"""
+    if isinstance(node, ast.Constant):
+        return ("const", node.value)
+    if isinstance(node, ast.Name):
+        if node.id in env:
+            return ("const", env[node.id])
+        return ("expr", node.id)
+    if isinstance(node, ast.Attribute):
+        d = []
+        e = node
+        while isinstance(e, ast.Attribute):
+            d.append(e.attr)
+            e = e.value
+        if isinstance(e, ast.Name):
+            dotted = ".".join([e.id] + list(reversed(d)))
+            if dotted in env:
+                return ("const", env[dotted])
+            if dotted.endswith((".PYTHON3", ".PYTHON_VERSION_TRIPLE", ".IS_PYPY", ".PYTHON_MAGIC_INT")):
+                return ("const", env[dotted.rsplit(".", 1)[1]])
+        k, v = peval(node.value, env)
+        return ("expr", "%s.%s" % (v if k == "expr" else repr(v), node.attr))
+    if isinstance(node, ast.Tuple):
+        parts = [peval(x, env) for x in node.elts]
+        if all(k == "const" for k, _ in parts):
+            return ("const", tuple(v for _, v in parts))
+        return ("expr", "(%s)" % ", ".join(repr(v) if k == "const" else v for k, v in parts))
+    if isinstance(node, ast.Subscript):
+        k, v = peval(node.value, env)
+        if k == "const":
+            try:
+                sl = node.slice
+                if isinstance(sl, ast.Slice):
+                    lo = ast.literal_eval(sl.lower) if sl.lower is not None else None
+                    hi = ast.literal_eval(sl.upper) if sl.upper is not None else None
+                    return ("const", v[lo:hi])
+                return ("const", v[ast.literal_eval(sl)])
+            except Exception:
+                pass
+        return ("expr", "%s[%s]" % (repr(v) if k == "const" else v, ast.unparse(node.slice)))
+    if isinstance(node, ast.UnaryOp) and isinstance(node.op, ast.Not):
+        k, v = peval(node.operand, env)
+        if k == "const":
+            return ("const", not v)
+        return ("expr", "not (%s)" % v)
+    if isinstance(node, ast.Compare):
+        parts = [peval(x, env) for x in [node.left] + list(node.comparators)]
+        if all(k == "const" for k, _ in parts):
+            try:
+                vals = [v for _, v in parts]
+                ok = True
+                for op, a, b in zip(node.ops, vals, vals[1:]):
+                    r = {ast.Lt: a < b, ast.LtE: a <= b, ast.Gt: a > b, ast.GtE: a >= b, ast.Eq: a == b, ast.NotEq: a != b}.get(type(op)) if type(op) in (ast.Lt, ast.LtE, ast.Gt, ast.GtE, ast.Eq, ast.NotEq) else None
+                    if r is None:
+                        if isinstance(op, ast.In):
+                            r = a in b
+                        elif isinstance(op, ast.NotIn):
+                            r = a not in b
+                        elif isinstance(op, ast.Is):
+                            r = a is b
+                        elif isinstance(op, ast.IsNot):
+                            r = a is not b
+                    ok = ok and bool(r)
+                return ("const", ok)
+            except Exception:
+                pass
+        return ("expr", " ".join([repr(parts[0][1]) if parts[0][0] == "const" else parts[0][1]] + ["%s %s" % (type(op).__name__, repr(v) if k == "const" else v) for op, (k, v) in zip(node.ops, parts[1:])]))
+    if isinstance(node, ast.BoolOp):
+        is_and = isinstance(node.op, ast.And)
+        rest = []
+        for x in node.values:
+            k, v = peval(x, env)
+            if k == "const":
+                if is_and and not v:
+                    return ("const", v) if not rest else ("expr", " and ".join(rest + [repr(v)]))
+                if not is_and and v:
+                    return ("const", v) if not rest else ("expr", " or ".join(rest + [repr(v)]))
+                continue          # neutral element: drop
+            rest.append("(%s)" % v)
+        if not rest:
+            return ("const", True if is_and else False)
+        return ("expr", (" and " if is_and else " or ").join(rest))
+    if isinstance(node, ast.IfExp):
+        k, v = peval(node.test, env)
+        if k == "const":
+            return peval(node.body if v else node.orelse, env)
+        a, b = peval(node.body, env), peval(node.orelse, env)
+        return ("expr", "(%s if %s else %s)" % (a[1] if a[0] == "expr" else repr(a[1]), v, b[1] if b[0] == "expr" else repr(b[1])))
+    # anything else: substitute inside by text
+    txt = ast.unparse(node)
+    uses = [n for n in ast.walk(node) if isinstance(n, ast.Name) and n.id in env]
+    if uses:
+        return ("expr", "HOST(%s):%s" % (",".join(sorted(set("%s=%r" % (n.id, env[n.id]) for n in uses))), txt))
+    return ("expr", txt)
+
+
+def host_reads(pkg, fn):
+    """[(lineno, expression text, {host: residual})] for every expression of fn's body (and parameter defaults) that reads a
+    host constant"""
+    out = []
+    exprs = []
+    for n in _own_nodes(fn.node):
+        if isinstance(n, (ast.If, ast.While, ast.Assert, ast.IfExp)):
+            exprs.append((n.test, n.lineno if hasattr(n, "lineno") else fn.node.lineno))
+        elif isinstance(n, (ast.Assign, ast.AugAssign, ast.AnnAssign, ast.Return, ast.Expr)) and getattr(n, "value", None) is not None:
+            exprs.append((n.value, n.lineno))
+    for d in fn.node.args.defaults + [x for x in fn.node.args.kw_defaults if x is not None]:
+        exprs.append((d, fn.node.lineno))
+    seen = set()
+    for e, ln in exprs:
+        names = set()
+        for x in ast.walk(e):
+            if isinstance(x, (ast.If, ast.IfExp)) and x is not e:
+                pass
+            if isinstance(x, ast.Name) and x.id in HOST_NAMES and pkg.resolve_name(fn, x.id)[0] != "local":
+                names.add(x.id)
+            elif isinstance(x, ast.Attribute) and x.attr in ("version_info", "PYTHON3", "PYTHON_VERSION_TRIPLE", "IS_PYPY", "PYTHON_MAGIC_INT") and isinstance(x.value, ast.Name) and x.value.id in ("sys", "xdis"):
+                names.add(x.value.id + "." + x.attr)
+        if not names or id(e) in seen:
+            continue
+        # an enclosing test already covers nested ones
+        seen.update(id(x) for x in ast.walk(e))
+        res = dict((h, peval(e, host_env(h))) for h in HOSTS)
+        out.append((ln, ast.unparse(e)[:120], res))
+    return out
